@@ -200,7 +200,16 @@ def run(repo: Repo) -> Result:
     for modname in ("liquid.static_analysis", "liquid.analyze_tags"):
         m = repo.module(modname)
         funcs = list(m.functions.values()) + [x for c in m.classes.values() for x in c.methods.values()]
-        for f in funcs:
+        from ..normalize import NFunc, normalize
+
+        for f0 in funcs:
+            # a private span-building helper (`self._span(token)`) is judged where it is used:
+            # helpers are inlined into their callers, and a function that is nothing but
+            # `return Span(...)` is skipped itself
+            body0 = [x for x in f0.node.body if not (isinstance(x, ast.Expr) and isinstance(x.value, ast.Constant))]
+            if f0.name.startswith("_") and len(body0) == 1 and isinstance(body0[0], ast.Return) and isinstance(body0[0].value, ast.Call) and isinstance(body0[0].value.func, ast.Name) and body0[0].value.func.id == "Span":
+                continue
+            f = NFunc(f0, normalize(repo, f0, aliases=False, keep=("_visit", "_analyze_variables", "_extract_filters", "_segments", "_audit_tags", "_valid_inner_tag")))
             aliases = {}
             for st in ast.walk(f.node):
                 if isinstance(st, ast.Assign) and len(st.targets) == 1 and isinstance(st.targets[0], ast.Name):
